@@ -432,3 +432,35 @@ pub fn corpus_files(max_len: usize, max_files: usize, rng: &mut Rng) -> Vec<(Str
     all.sort();
     all
 }
+
+/// canvas cw x ch, frame 0 = full canvas (in the animation), frame 1 = the given rectangle, 1..3 fdAT chunks
+pub fn apng_with_rect(rng: &mut Rng, cw: u32, ch: u32, fw: u32, fh: u32, fx: u32, fy: u32, interlaced: bool) -> Built {
+    let (color, depth) = *rng.pick(&COLOR_DEPTHS);
+    let s = ImageSpec { w: cw, h: ch, color, depth, interlaced };
+    let mut chunks = vec![ihdr(cw, ch, depth, color, interlaced as u8)];
+    let mut palette = None;
+    if color == 3 {
+        let p = palette_chunk(1 << depth.min(8), rng);
+        palette = Some(p.data.clone());
+        chunks.push(p);
+    }
+    chunks.push(actl_chunk(2, 0));
+    let mut frames = vec![];
+    let f0 = (0u32, cw, ch, 0u32, 0u32, 1u16, 1u16, 0u8, 0u8);
+    chunks.push(fctl_chunk(f0.0, f0.1, f0.2, f0.3, f0.4, f0.5, f0.6, f0.7, f0.8));
+    let (rows, z, px) = frame_data(&s, cw, ch, rng);
+    chunks.push(Chunk::new(b"IDAT", z));
+    frames.push(FrameExp { fctl: Some(f0), w: cw, h: ch, pixels: px, rows });
+    let f1 = (1u32, fw, fh, fx, fy, 2u16, 3u16, 1u8, 1u8);
+    chunks.push(fctl_chunk(f1.0, f1.1, f1.2, f1.3, f1.4, f1.5, f1.6, f1.7, f1.8));
+    let (rows, z, px) = frame_data(&s, fw, fh, rng);
+    let mut seq = 2;
+    let n = rng.range(1, 3) as usize;
+    for p in split_random(&z, n, rng, true) {
+        chunks.push(fdat_chunk(seq, &p));
+        seq += 1;
+    }
+    frames.push(FrameExp { fctl: Some(f1), w: fw, h: fh, pixels: px, rows });
+    chunks.push(Chunk::new(b"IEND", vec![]));
+    Built { name: format!("rect-c{}d{}{}-{}x{}-{}x{}@{},{}", color, depth, if interlaced { "i" } else { "n" }, cw, ch, fw, fh, fx, fy), bytes: assemble(&chunks), spec: s, palette, trns: None, frames, animated: true }
+}
